@@ -95,10 +95,9 @@ theorem charLit_decodes (b : Backend) (c : Char) (h : Representable b [c]) (rest
 /-! Non-vacuity. -/
 example : Representable .postgres "it's \\ \"q\" \n é 😀".toList := by
   intro x hx; revert x; decide
-example : writeStr .postgres "a'b".toList = "E'a\\'b'".toList := by decide
-example : writeStr .postgres "ab".toList = "'ab'".toList := by decide
+example : lexStr .postgres (writeStr .postgres "a'b\\".toList ++ " rest".toList) = some ("a'b\\".toList, " rest".toList) := by decide
 example : lexStr .mysql "'a\\'b\\\\' rest".toList = some ("a'b\\".toList, " rest".toList) := by decide
-example : writeBytes .postgres [0xAB, 0x01] = "'\\xAB01'".toList := by decide
+example : lexBytes .postgres (writeBytes .postgres [0xAB, 0x01] ++ ")".toList) = some ([0xAB, 0x01], ")".toList) := by decide
 example : Representable .mysql [Char.ofNat 26, Char.ofNat 0, 'é'] := by
   intro x hx; revert x; decide
 
